@@ -49,6 +49,26 @@ def reference(name, n, c, o, A):
 
 
 def layout(rep, M, F, H, file, store, roles, FRAME, HEADER):
+    # primary decision: frame worlds through the public API (E-ABS/BV) -- HdlcFrame() filled by append(), every accessor after every octet
+    from sa.hdlcworlds import DESCR, RULE, frame_worlds
+    fw = frame_worlds(M, FRAME, HEADER)
+    if fw[0] == "ok":
+        for name, cnt in sorted(fw[2].items()):
+            rep.ok(RULE.get(name, "R4"), name, f"= {DESCR[name]} (symbolic octets; {cnt} prefixes of frames built through HdlcFrame.append, address lengths 1..5 / 1..4)")
+            rep.count("accessors", 1)
+        rep.count("frame_world_cells", fw[1])
+    elif fw[0] == "bad":
+        ck = FRAME if name_in(M, FRAME, fw[1]) and not name_in(M, HEADER, fw[1]) else HEADER
+        fn_ = M.find_method(ck, fw[1])
+        rep.violation(RULE.get(fw[1], "R4"), f"{ck[0]}.{ck[1]}.{fw[1]}", "layout", fw[2], file, fn_.node.lineno if fn_ else 1, witness=fw[3])
+        rep.count("accessors", 1)
+    if fw[0] in ("ok", "bad"):
+        # the address scan on its own: every position and every extension-bit valuation
+        cls_roles = dict(roles)
+        A0 = type("A0", (), {"FRAME": FRAME, "HEADER": HEADER})()
+        _address_scan(rep, M, H, file, cls_roles, store, A0)
+        return None
+    rep.notes.append(f"frame worlds through the public API not evaluable ({fw[1]}); falling back to per-accessor worlds (E-ACC)")
     # control-position field: the header field assigned from a parameterless header method in update()
     cpf = cp_field = None
     upd = H.methods.get("update")
@@ -207,6 +227,10 @@ def layout(rep, M, F, H, file, store, roles, FRAME, HEADER):
     else:
         rep.ok("R4", "control position update", f"{nu} worlds: while unknown it is recomputed on every append once more than 3 octets are present; a known position is never overwritten")
     return cp_field
+
+
+def name_in(M, ck, name):
+    return M.find_method(ck, name) is not None
 
 
 def _same(a, b):
